@@ -2055,6 +2055,95 @@ theorem commute_succeeds_around_mark_gap_partial (S : Schema) (htr : CompatTrans
   subst this
   exact ⟨_, dab, hmap, hA, hMda, hA'db⟩
 
+theorem stepMarks_canonical (S : Schema) (pos : Nat) (N : Step) (hN : NodeStepAt pos N) (ms : Marks)
+    (h : canonicalMarks S ms = true) : canonicalMarks S (stepMarks S N ms) = true := by
+  rcases hN with ⟨m, rfl⟩ | ⟨m, rfl⟩ | ⟨n, v, rfl⟩
+  · exact addToSet_canonical S m ms h
+  · exact removeFromSet_canonical S m ms h
+  · exact h
+
+/-- **a node-mark / attr step on a token strictly inside the kept gap whose parent lies inside the gap**
+    (`gapGuard` for the one-token range with a closed slice: the addressed node is not a top-level node of the gap
+    content): both rebased steps apply and give the same document -/
+theorem commute_succeeds_around_nodeStep_gap_partial (S : Schema) (htr : CompatTrans S) (d da db : Node)
+    (f t gf gt ins : Nat) (sl : Slice) (st : Bool) (pos : Nat) (N : Step) (hN : NodeStepAt pos N)
+    (hv : C01.Valid S d) (hpv : C01.PayloadValid S d (.replaceAround f t gf gt sl ins st))
+    (hn : fnorm d.kids = true) (hsn : fnorm sl.content = true)
+    (hs : AroundShape f t gf gt sl ins) (hcl : sl.openStart = 0 ∧ sl.openEnd = 0)
+    (h : gf < pos) (h' : pos + 1 < gt)
+    (ha : S.apply (.replaceAround f t gf gt sl ins st) d = .ok da) (hb : S.apply N d = .ok db)
+    (hdaal : alignedAt da.kids f = true ∧ alignedAt da.kids (f + sl.toks.length + (gt - gf)) = true)
+    (hg : gapGuard d.kids gf gt pos (pos + 1) ⟨[], 0, 0⟩ = true) :
+    ∃ N' dab, N.map (Step.replaceAround f t gf gt sl ins st).getMap = some N' ∧
+      (Step.replaceAround f t gf gt sl ins st).map N.getMap = some (.replaceAround f t gf gt sl ins st) ∧
+      S.apply N' da = .ok dab ∧ S.apply (.replaceAround f t gf gt sl ins st) db = .ok dab := by
+  have hsp : N.posSpan = some (pos, pos) := by
+    rcases hN with ⟨m, rfl⟩ | ⟨m, rfl⟩ | ⟨n, v, rfl⟩ <;> rfl
+  have hto : N.touch = some (pos, pos + 1) := by
+    rcases hN with ⟨m, rfl⟩ | ⟨m, rfl⟩ | ⟨n, v, rfl⟩ <;> rfl
+  obtain ⟨n, u, hnat, hu, hfrN⟩ := nodeStep_full S d db pos N hN hb
+  obtain ⟨hposlt, _, htok, _, _, _, _⟩ := nodeRepl_toks S d db n u pos _ _ hnat hu hfrN
+  obtain ⟨hsz, hun⟩ := nodeSlice_facts S n u _ _ hu
+  have hnt : n.isText = false := by
+    cases n with
+    | text s m => simp [Schema.recreate] at hu
+    | leaf => rfl
+    | elem => rfl
+  have hnv := nodeAtKids_valid S d.kids pos n (checkNode_kids hv) hnat
+  have hpay := recreate_payload S n u _ _ hnv (stepMarks_canonical S pos N hN _ (Node.marks_canonical hnv)) hu
+  have hb2 : S.apply (.replace pos (pos + 1) ⟨[u], 0, if n.isLeaf then 0 else 1⟩ false) d = .ok db := by
+    simpa [Schema.apply] using hfrN
+  have hgo := hs.2.2
+  have hg' : gapGuard d.kids gf gt pos (pos + 1) ⟨[u], 0, if n.isLeaf then 0 else 1⟩ = true := by
+    unfold gapGuard at hg ⊢; exact hg
+  obtain ⟨A', R', dab0, eA, eR, hA'db, hR'da⟩ := commute_succeeds_around_gap S htr d db da f t gf gt ins pos (pos + 1) sl
+    ⟨[u], 0, if n.isLeaf then 0 else 1⟩ st false hv hpv hpay hn hun hsn hs hcl h h' hb2 ha hdaal hg'
+  -- the replace-around step is unchanged, the replace moves by δX
+  obtain ⟨eA2, eR2⟩ := (rebase_around_separated f t gf gt ins pos (pos + 1) sl ⟨[u], 0, if n.isLeaf then 0 else 1⟩ st false
+    hgo (by omega)).2.1 h h'
+  rw [eA2] at eA; rw [eR2] at eR
+  have e1 : ((t : Int) + ((Slice.mk [u] 0 (if n.isLeaf then 0 else 1)).size - (((pos + 1 : Nat) : Int) - pos))).toNat = t := by
+    omega
+  have e2 : ((gt : Int) + ((Slice.mk [u] 0 (if n.isLeaf then 0 else 1)).size - (((pos + 1 : Nat) : Int) - pos))).toNat = gt := by
+    omega
+  have e3 : ((pos : Int) + ((ins : Int) - ((gf : Int) - f))).toNat = f + ins + (pos - gf) := by omega
+  have e4 : (((pos + 1 : Nat) : Int) + ((ins : Int) - ((gf : Int) - f))).toNat = f + ins + (pos - gf) + 1 := by omega
+  rw [e1, e2] at eA
+  rw [e3, e4] at eR
+  simp only [Option.some.injEq] at eA eR
+  subst eA eR
+  have hmap := (rebase_markup_not_dropped_around N pos pos hsp (Nat.le_refl _) f t gf gt sl ins st hgo).2.1 h (by omega)
+  generalize hgdef : (fun p : Nat => ((p : Int) + ((ins : Int) - ((gf : Int) - f))).toNat) = g at hmap
+  have hgpos : g pos = f + ins + (pos - gf) := by rw [← hgdef]; exact e3
+  have hA : (Step.replaceAround f t gf gt sl ins st).map N.getMap = some (.replaceAround f t gf gt sl ins st) := by
+    rw [getMap_of_touch N pos (pos + 1) hto]
+    exact replaceAround_map_empty f t gf gt sl ins st ⟨hgo.1, hgo.2.2⟩
+  refine ⟨_, dab0, hmap, hA, ?_, hA'db⟩
+  -- the node step on `da` finds the same token
+  obtain ⟨hdaL, hl, hXl, _⟩ := apply_around_aroundL S d da f t gf gt sl ins st hs ha
+  have hna : fnorm da.kids = true := by
+    obtain ⟨gap, I, hgap, ho1, ho2, hinst, ha2, hio, hin, hisz, _⟩ :=
+      around_as_replace S d da f t gf gt ins sl st hn hsn hs ha
+    exact apply_replace_norm S d da f t I false hn hin ha2
+  have hfr := apply_replace_fromReplace S da dab0 _ _ _ false hR'da
+  obtain ⟨c1, c2, c3⟩ := stepAttrs_mapPos N g pos hN
+  rw [hgpos] at c3
+  have hp : pos < (ftoks d.kids).length := by rw [ftoks_length]; exact hposlt
+  have htok' : (ftoks da.kids)[f + ins + (pos - gf)]? = some n.headTok := by
+    have := aroundL_getElem?_gap (ftoks d.kids) (sl.toks.take ins) (sl.toks.drop ins) f gf gt t (pos - gf) hgo hl (by omega)
+    rw [hXl] at this
+    rw [hdaL, this, show gf + (pos - gf) = pos by omega, List.getElem?_eq_getElem hp]
+    rw [List.getD_eq_getElem?_getD, List.getElem?_eq_getElem hp] at htok
+    simpa using htok
+  obtain ⟨n', hnat', hhd, hnt'⟩ := nodeAtKids_of_head da.kids _ n.headTok (fnormKids_of_fnorm hna) htok'
+    (by cases n <;> simp [Node.headTok, Node.isText] at hnt ⊢)
+    (by intro c m; cases n <;> simp [Node.headTok, Node.isText] at hnt ⊢)
+  obtain ⟨k1, k2, k3, k4⟩ := recreate_congr_head S n n' (stepAttrs N n.attrs) (stepMarks S N n.marks) hhd hnt hnt'
+  have hu' : S.recreate n' (stepAttrs (N.mapPos g) n'.attrs) (stepMarks S (N.mapPos g) n'.marks) = .ok u := by
+    rw [c1, c2 S, k2, k3, k1]; exact hu
+  rw [nodeStep_apply_of S da n' u _ _ c3 hnat' hu', k4]
+  exact hfr
+
 /-- the guard holds: in `doc(quote(p("a"), p("b")))`, lifting both paragraphs out of the quote
     (`replaceAround 0 8 1 7 ⟨[], 0, 0⟩ 0`, gap `[1, 7)`) against typing inside the second paragraph (`5 … 5`):
     the typing happens inside `p("b")`, which lies inside the gap -/
